@@ -86,7 +86,7 @@ pub fn run(out: &mut Out, seed: u64, tier: &str) {
     for r in 0..n_random {
         let n = 2 + rng.below(if r % 4 == 0 { 19 } else { 5 });
         let mut m = vec![0.0; n * n];
-        let density = rng.range(0.05, 0.6);
+        let density = if n > 7 { rng.range(0.5, 3.0) / n as f64 } else { rng.range(0.05, 0.6) };
         for i in 0..n { for j in (i + 1)..n {
             if rng.chance(density) { let v = ALPHABET[1 + rng.below(5)]; m[i * n + j] = v; m[j * n + i] = v; }
         } }
